@@ -438,6 +438,56 @@ pub fn k7(dir: &str, thorough: bool, seed: u64) {
                         }
                     }
                 }
+                // planted shapes: the witnesses of the repaired cache / domain defects (D1-D5, D10), with domains that are
+                // non-empty for disjoint sets of colours, an empty domain, and random wild-card sets
+                let valid = xg.valid_colours();
+                if k >= 1 && valid.len() >= 1 {
+                    let a0 = xg.var_names[0].clone();
+                    let half: Vec<usize> = valid.iter().cloned().filter(|c| (c + round) % 2 == 0).collect();
+                    let mut ctx = rand_ctx(&mut rng, &xg, &["p", "q"]);
+                    ctx.insert("d".to_string(), xg.set_from_pred(|_, c| half.contains(&c)));
+                    ctx.insert("e".to_string(), xg.set_from_pred(|_, c| !half.contains(&c)));
+                    ctx.insert("z".to_string(), xg.set_from_pred(|_, _| false));
+                    for l in ctx_lines(&xg, &ctx) {
+                        let imp = if l == "ctxclear" { "ctx cleared" } else { "ctx ok" };
+                        out.case(&l, imp, false);
+                    }
+                    let mut planted: Vec<String> = vec![
+                        format!("3{{x}} in %d%: %p%"),
+                        format!("3{{x}} in %d%: {a0}"),
+                        format!("(!{{x}} in %d%: ~{a0}) | (~{a0})"),
+                        format!("(3{{x}} in %z%: {a0}) & (!{{x}}: ({{x}} & %p%)) & (!{{x}}: ({{x}} & %p%))"),
+                        format!("(!{{x}} in %d%: @{{x}}: EX ({{x}} & %p%)) & (!{{x}}: EX ({{x}} & %p%))"),
+                        format!("(V{{x}} in %e%: %q%) & (3{{x}} in %d%: ({{x}} | %q%))"),
+                    ];
+                    if k >= 2 {
+                        planted.push(format!("!{{x}} in %d%: !{{y}} in %e%: {a0}"));
+                        planted.push(format!("3{{x}} in %d%: (V{{y}} in %e%: ({{x}} & {{y}}))"));
+                        planted.push(format!("(V{{x}}: {a0}) & (3{{x}} in %d%: (V{{y}}: {a0}))"));
+                        planted.push(format!("3{{x}} in %d%: (!{{y}}: AX {{y}})"));
+                        planted.push(format!("!{{x}} in %e%: 3{{y}} in %d%: (@{{y}}: EF {{x}})"));
+                    }
+                    let mut batches: Vec<Vec<String>> = planted.iter().map(|f| vec![f.clone()]).collect();
+                    batches.push(planted.clone());
+                    for formulas in batches {
+                        let variant = "ext_dirty";
+                        let ans = run_variant(&xg, variant, &formulas, &ctx);
+                        let kind = ans.split(' ').next().unwrap_or("").to_string();
+                        out.count(&format!("planted_{}", if kind == "err" { ans.clone() } else { kind.clone() }));
+                        let nontrivial = kind == "ok" && ans.contains('1') && ans.contains('0');
+                        out.case(&eval_req(variant, &formulas), &ans, nontrivial);
+                        out.case(&eval_req(&format!("pure_{variant}"), &formulas), &ans, nontrivial);
+                        out.oracle(kind != "panic", "C14", "entry point panicked", &format!("{name} k={k} {variant} {formulas:?}"));
+                        for pid in ["C01", "C02", "C04"] {
+                            out.oracle(kind != "panic", pid, "entry point panicked on a planted formula", &format!("{name} k={k} {formulas:?}"));
+                        }
+                        if kind == "ok" {
+                            for (bits, f) in ans.split(' ').skip(1).zip(formulas.iter()) {
+                                check_bits_c03(&mut out, &xg, &unit_bits, bits, &format!("{name} k={k} {variant} {f}"));
+                            }
+                        }
+                    }
+                }
             }
         }
     }
